@@ -1,7 +1,8 @@
 (* Properties/C09.v — finite, non-negative results: the provable part (partial).  Finiteness of
    everything that goes through pow / ln / erf lives in libm and is decided by the scan only. *)
-From Coq Require Import ZArith QArith List Bool.
-From V Require Import Accuracy AccuracyProofs.
+From Coq Require Import ZArith QArith List Bool Reals Floats Qreals.
+From Flocq Require Import Core.
+From V Require Import F64 FExact FInt Accuracy AccuracyProofs AccCases AccFloatProofs.
 Import ListNotations.
 
 (* accuracies lie in [0, 1] for every state with non-negative counts, every origin, the
@@ -36,3 +37,23 @@ Print Assumptions C09_weighted_sum_bound.
 
 Example C09_example : (acc_of (osu_acc_nd (OWithSliderAcc 4 2) 3 1 0 1 2 3 0) == 139 # 192)%Q.
 Proof. vm_compute. reflexivity. Qed.
+
+(* the FLOAT the code returns: `f64::from(numerator) / f64::from(denominator)` (0.0 for a zero
+   denominator) is finite, lies in [0, 1] and is within 2^-53 of the exact accuracy above - it is that
+   fraction correctly rounded (Flocq); recorded accuracies are compared with this model bit for bit *)
+Theorem C09_float_accuracy : forall n d : Z, (0 <= n <= d)%Z -> (d < 2 ^ 53)%Z ->
+  fin (facc (n, d)) /\ (0 <= RV (facc (n, d)) <= 1)%R
+  /\ (Rabs (RV (facc (n, d)) - Q2R (acc_of (n, d))) <= bpow radix2 (-53))%R.
+Proof. exact facc_close. Qed.
+Print Assumptions C09_float_accuracy.
+
+(* osu!'s public accuracy adds the tick parts with the binary64 weights 0.6 and 0.2 (not a quotient of
+   two integers): the value computed in binary64 - every origin, every state with counts below 2^28,
+   the `denominator.eq(0.0)` guard included - is finite and within [0, 1] (monotone rounding, Flocq) *)
+Theorem C09_osu_float_accuracy : forall o n300 n100 n50 misses ends large small,
+  cnt n300 -> cnt n100 -> cnt n50 -> cnt misses -> cnt ends -> cnt large -> cnt small ->
+  match o with OStable => True | OWithSliderAcc a b | OWithoutSliderAcc a b => cnt a /\ cnt b end ->
+  let f := fquot (osu_facc_nd o n300 n100 n50 misses ends large small) in
+  fin f /\ (0 <= RV f <= 1)%R.
+Proof. exact osu_facc_unit. Qed.
+Print Assumptions C09_osu_float_accuracy.
